@@ -2099,8 +2099,12 @@ where
 
 impl<S, T> Drop for Client<S, T> {
     fn drop(&mut self) {
-        let mut guard = self.client_server_map.lock();
-        guard.remove(&(self.process_id, self.secret_key));
+        // A cancel request carries the key of the client it targets: dropping it
+        // must not unregister that client's server.
+        if !self.cancel_mode {
+            let mut guard = self.client_server_map.lock();
+            guard.remove(&(self.process_id, self.secret_key));
+        }
 
         // Dirty shutdown
         // TODO: refactor, this is not the best way to handle state management.
